@@ -21,6 +21,9 @@ type solverCfg struct {
 }
 
 var solvers = []solverCfg{
+	{"z3-5.1.0/ematching", func(ms int, f string) []string {
+		return []string{"z3-new", fmt.Sprintf("-t:%d", ms), "smt.mbqi=false", f}
+	}, true},
 	{"z3-5.1.0", func(ms int, f string) []string { return []string{"z3-new", fmt.Sprintf("-t:%d", ms), f} }, true},
 	{"cvc5-1.0", func(ms int, f string) []string {
 		return []string{"cvc5", "--incremental", fmt.Sprintf("--tlimit-per=%d", ms), f}
@@ -116,6 +119,7 @@ func (w *World) header(body string, extra string) string {
 		fmt.Fprintf(&sb, "(declare-fun %s (%s) %s)\n", q(n), strings.Join(ps, " "), sortText(rs))
 	}
 	sb.WriteString("(declare-fun str.cat (Str Str) Str)\n(declare-fun str.len (Str) Int)\n")
+	sb.WriteString("(declare-fun idx (Int Int) Int)\n(assert (forall ((o Int) (i Int)) (! (= (idx o i) (+ o i)) :pattern ((idx o i)))))\n")
 	var cs []string
 	for ks := range w.cardSorts {
 		cs = append(cs, ks)
@@ -291,7 +295,8 @@ func dischargeAll(xs []*Exec, dir string, perCheckMs int, workers int) {
 			ctx, cancel := context.WithTimeout(context.Background(), total)
 			defer cancel()
 			t0 := time.Now()
-			res, raw, _ := runSolver(ctx, solvers[0], job.text, perCheckMs, dir, ref.tag)
+			ms0 := perCheckMs / 2
+			res, raw, _ := runSolver(ctx, solvers[0], job.text, ms0, dir, ref.tag)
 			el := time.Since(t0).Milliseconds()
 			mu.Lock()
 			for _, g := range job.goals {
@@ -310,7 +315,11 @@ func dischargeAll(xs []*Exec, dir string, perCheckMs int, workers int) {
 			mu.Unlock()
 			// second chance for undecided goals with the other solvers
 			for _, g := range job.goals {
-				if g.status == "sat" || g.status == "unsat" {
+				if g.status == "unsat" {
+					continue
+				}
+				if g.expect == "cover" {
+					// smoke test: it is enough that false is not derivable
 					continue
 				}
 				wmu.Lock()
@@ -368,6 +377,8 @@ func singleGoalScript(x *Exec, leaf *node, g *Goal) string {
 			}
 		case 'a':
 			body.WriteString("(assert " + n.text + ")\n")
+		case 'c':
+			body.WriteString("; " + n.text + "\n")
 		case 'g':
 			if n.goal == g {
 				if g.expect == "cover" {
